@@ -48,11 +48,11 @@ const (
 	csString
 	csPayload
 	csSliceValue
-	csSlicePayload
 	csSliceTyOpt
+	csSlicePayload
 	csMapArg
-	csStrMapPayload
 	csStrMapTy
+	csStrMapPayload
 	csMarks
 	csSliceMarks
 	csRules
@@ -538,6 +538,10 @@ func (c *cctx) rangeStmt(s *ast.RangeStmt, en cEnv, after func(cEnv) string) str
 	fn := fmt.Sprintf("%s_loop%d", c.u.name, c.u.nloops)
 	mut := assignedIn(s.Body, en)
 	var fixedDecl, fixedArgs, stTypes, stPats, stArgs []string
+	// the helper's parameters are ordered by their reading (declaration order only among equal readings), so that
+	// renaming locals or reordering their declarations leaves the generated signature unchanged
+	en = append(cEnv(nil), en...)
+	sort.SliceStable(en, func(i, j int) bool { return en[i].v.sh < en[j].v.sh })
 	inner := make(cEnv, len(en))
 	for i, x := range en {
 		p := c.u.fresh(x.name)
